@@ -384,9 +384,28 @@ fn emit_stack_cleanup_code<E: quiver_core::effects::Effect>(
     }
 }
 
+/// The name of the tuple built for one variant. A name-inheriting spread (`~[...]`, `a[...]`)
+/// takes it from its first spread's source, which is this variant's tuple type for that spread -
+/// so a source whose static type is a union keeps, case by case, the name the value has.
+fn variant_tuple_name(
+    tuple_name: &ast::TupleName,
+    variant: &VariantInfo,
+    program: &Program,
+) -> Option<String> {
+    match tuple_name {
+        ast::TupleName::Anonymous => None,
+        ast::TupleName::Named(name) => Some(name.clone()),
+        ast::TupleName::Inherit => variant
+            .spread_type_ids
+            .first()
+            .and_then(|&tuple_id| program.lookup_tuple(tuple_id))
+            .and_then(|source| source.name.clone()),
+    }
+}
+
 pub fn compile_tuple_with_spread<E: quiver_core::effects::Effect>(
     compiler: &mut Compiler<'_, E>,
-    tuple_name: Option<String>,
+    tuple_name: ast::TupleName,
     fields: Vec<ast::TupleField>,
     ripple_context: Option<&RippleContext>,
 ) -> Result<(usize, Provenance), Error> {
@@ -410,12 +429,13 @@ pub fn compile_tuple_with_spread<E: quiver_core::effects::Effect>(
 
     // Step 3: Generate bytecode based on number of variants
     let result_type_id = if variants.len() == 1 {
+        let tuple_name = variant_tuple_name(&tuple_name, &variants[0], compiler.program);
         emit_single_variant_tuple(
             compiler,
             &variants[0],
             &compiled_values,
             stack_size,
-            tuple_name.clone(),
+            tuple_name,
         )?
     } else {
         emit_multi_variant_tuples(
@@ -423,7 +443,7 @@ pub fn compile_tuple_with_spread<E: quiver_core::effects::Effect>(
             &variants,
             &compiled_values,
             stack_size,
-            tuple_name.clone(),
+            &tuple_name,
         )?
     };
 
@@ -471,7 +491,7 @@ fn emit_multi_variant_tuples<E: quiver_core::effects::Effect>(
     variants: &[VariantInfo],
     compiled_values: &[CompiledValue],
     stack_size: usize,
-    tuple_name: Option<String>,
+    tuple_name: &ast::TupleName,
 ) -> Result<usize, Error> {
     let mut end_jumps = Vec::new();
     let mut variant_type_ids = Vec::new();
@@ -480,6 +500,7 @@ fn emit_multi_variant_tuples<E: quiver_core::effects::Effect>(
         let is_last = variant_idx == variants.len() - 1;
         let field_sources =
             build_field_sources_for_variant(variant, compiled_values, compiler.program);
+        let tuple_name = variant_tuple_name(tuple_name, variant, compiler.program);
 
         if !is_last {
             // Check if spreads match this variant's types
